@@ -252,6 +252,7 @@ def run(case):
                 if not gateway.tasks.queue:
                     break
                 sim.sleep(0.5)
+            sim.sleep(0.3)  # the command the pump has just taken off the queue may still be inside a (slow) send
             world.device.write_hook = None
             if cfg["event"] == "both_errors" and not probes.get("write_and_read_error_together"):
                 conn0.write_exc = None  # nothing was written after the event: the armed fault is withdrawn
